@@ -337,6 +337,23 @@ func (c *c26Clock) Sleep(d time.Duration) {
 	c.mu.Lock()
 	c.sleeps = append(c.sleeps, int64(d))
 	c.mu.Unlock()
+	// While a batch waits out its Retry-After other batches use the shared buffer pool. Play that part here, on
+	// the sleeping goroutine itself: take the buffers that are in the pool right now, fill them completely, put them
+	// back. A batch that still owns its buffers is unaffected; one that returned them early re-sends overwritten bytes.
+	pool := transmit.VerifC26BatchBufferPool()
+	var held []*[]byte
+	for i := 0; i < 6; i++ {
+		b := pool.Get().(*[]byte)
+		full := (*b)[:cap(*b)]
+		for j := range full {
+			full[j] = 0xC1 // never a valid msgpack or zstd stream
+		}
+		held = append(held, b)
+	}
+	for _, b := range held {
+		*b = (*b)[:0]
+		pool.Put(b)
+	}
 }
 
 type c26TimeoutErr struct{ timeout bool }
@@ -363,6 +380,7 @@ type c26Server struct {
 	reqs  map[uint64]*c26Req
 	extra []*c26Req // requests that re-used a first id with different content
 	errs  []string
+	badBodies int // attempts whose body is not the serialized events of a batch
 	zdec  *zstd.Decoder
 }
 
@@ -386,15 +404,18 @@ func (s *c26Server) proxy(req *http.Request) (*url.URL, error) {
 	if req.Header.Get("Content-Encoding") == "zstd" {
 		body, err = s.zdec.DecodeAll(wire, nil)
 		if err != nil {
-			return nil, err
+			s.mu.Lock()
+			s.badBodies++
+			s.mu.Unlock()
+			return nil, c26TimeoutErr{timeout: false}
 		}
 	}
 	var evs []map[string]any
 	if err := msgpack.Unmarshal(body, &evs); err != nil {
 		s.mu.Lock()
-		s.errs = append(s.errs, "undecodable request body: "+err.Error())
+		s.badBodies++
 		s.mu.Unlock()
-		return nil, nil
+		return nil, c26TimeoutErr{timeout: false}
 	}
 	var ids []uint64
 	for _, e := range evs {
@@ -856,9 +877,9 @@ func c26Run(raw json.RawMessage) (Case, error) {
 	}
 	tags[fmt.Sprintf("max:%d", in.Max)] = true
 	tags[fmt.Sprintf("bt:%d", in.BT)] = true
-	coq := fmt.Sprintf("{| c_max := %s; c_bt := %s; c_t0 := %s; c_ops := %s; c_beh := %s; c_bad := %s; c_reqs := %s; c_sleeps := %s; c_syncs := %s; c_sync_timeouts := %s; c_gauge := %s; c_cnt := %s; c_burst := %s |}",
+	coq := fmt.Sprintf("{| c_max := %s; c_bt := %s; c_t0 := %s; c_ops := %s; c_beh := %s; c_bad := %s; c_reqs := %s; c_sleeps := %s; c_syncs := %s; c_sync_timeouts := %s; c_gauge := %s; c_cnt := %s; c_burst := %s; c_bad_bodies := %s |}",
 		cq.Z(int64(in.Max)), cq.Z(in.BT), cq.Z(t0), cq.List(ops), cq.List(behTerms), cq.ListN(badList), cq.List(reqTerms),
-		cq.ListZ(sleeps), cq.List(syncs), cq.N(uint64(syncTimeouts)), cq.Z(gauge), cq.ListZ(cnt), cq.ListN(burstIDs))
+		cq.ListZ(sleeps), cq.List(syncs), cq.N(uint64(syncTimeouts)), cq.Z(gauge), cq.ListZ(cnt), cq.ListN(burstIDs), cq.N(uint64(srv.badBodies)))
 	var tl []string
 	nontriv := false
 	for t := range tags {
